@@ -22,17 +22,45 @@ def _flat(node):
     return " ".join(ast.unparse(node).split())
 
 
+_SOURCES = ("bcat", "cat", "open_binary", "open_text", "open", "read")
+
+
+def _dissects(st, names):
+    """does this statement start PARSING a value held in one of `names` (the content read from the file): a method call
+    on it (`data.rfind(…)`, `.find`, `.partition`, `.split` …), a subscript / slice of it, or handing it to a function
+    (`_split_stat(data)`, `re.match(…, data)`)?  A truth test (`if not data:`), a comparison or a re-binding is not."""
+    for n in ast.walk(st):
+        if isinstance(n, ast.Call):
+            if isinstance(n.func, ast.Attribute) and isinstance(n.func.value, ast.Name) and n.func.value.id in names:
+                return True
+            if any(isinstance(a, ast.Name) and a.id in names for a in list(n.args) + [k.value for k in n.keywords]) \
+                    and extract.dotted(n.func).split(".")[-1] not in ("len", "bool", "isinstance"):
+                return True
+        if isinstance(n, ast.Subscript) and isinstance(n.value, ast.Name) and n.value.id in names:
+            return True
+    return False
+
+
 def _fn_shape(fn, until=None):
-    """'def(args) @decorators' + the statements of `fn` (docstring dropped), each on one line; with `until`: only the
-    statements before the first one whose text contains `until` (the part that OBTAINS the data)"""
+    """'def(args) @decorators' + the statements of `fn` (docstring dropped), each on one line; with `until="parse"`: only
+    the statements that OBTAIN the data — everything before the first statement that starts dissecting a value read
+    from a file (a name bound from bcat/cat/open/read at top level, try bodies included); written for the data flow,
+    not the spelling: which method / helper does the dissecting does not matter"""
     out = ["def(%s)%s" % (ast.unparse(fn.args), "".join(" @" + ast.unparse(d) for d in fn.decorator_list))]
+    names = set()
     for st in fn.body:
         if isinstance(st, ast.Expr) and isinstance(st.value, ast.Constant) and isinstance(st.value.value, str):
             continue
-        txt = _flat(st)
-        if until is not None and until in txt:
+        if until == "parse" and names and _dissects(st, names):
             break
-        out.append(txt)
+        out.append(_flat(st))
+        for n in ast.walk(st):
+            if isinstance(n, ast.Assign) and any(isinstance(c, ast.Call) and extract.dotted(c.func).split(".")[-1] in _SOURCES
+                                                 for c in ast.walk(n.value)):
+                for t in n.targets:
+                    names.update(x.id for x in ast.walk(t) if isinstance(x, ast.Name))
+            if isinstance(n, ast.withitem) and isinstance(n.optional_vars, ast.Name):
+                names.add(n.optional_vars.id)
     return out
 
 
@@ -77,7 +105,7 @@ def facts(snap, F):
     init = extract.parse_module(snap, "__init__.py")
     common = extract.parse_module(snap, "_common.py")
     sl = lambda xs: extract.lean_list(xs, extract.lean_str)
-    F.try_add("statReadShape", "List String", lambda: sl(_shape_of(plat, "_parse_stat_file", "Process", until="rfind")),
+    F.try_add("statReadShape", "List String", lambda: sl(_shape_of(plat, "_parse_stat_file", "Process", until="parse")),
               "_pslinux.Process._parse_stat_file: signature, decorators and the statements that obtain the content of /proc/pid/stat (everything before the parse starts)")
     F.try_add("catShape", "List String", lambda: sl(_shape_of(common, "cat") + _shape_of(common, "bcat")),
               "_common.cat and _common.bcat: signature + statements (without `fallback` the open/read is not guarded)")
